@@ -16,3 +16,8 @@ package internal
 //@   ensures   err == nil <==> n == len(buf)
 //@   ensures   err == io.EOF ==> n == 0
 //@   nopanic
+
+// Sync fsyncs a path (a directory, typically). It touches no program state; callers treat it as one
+// file-system event (it is not inlined into their protocol automata).
+//@ func Sync [C05]
+//@   pure
